@@ -422,6 +422,11 @@ def corpus_parse(tier, seed, focus='C01', nm=None):
     A([V('Quote', ser=['say "hi"']), V('Back', ser=['a\\b', 'a']), V('Line', ser=['two\nlines']), V('Bang', ser=['a!', 'a b']), V('Tab', ts='t\tab')])
     # 23 a case-insensitive spelling with non-ASCII upper-case letters
     A([V('Ecole', ser=['\u00c9cole'], aci=True), V('Strasse', ser=['Stra\u00dfe'], aci=True), V('Plain')])
+    # 25 spellings of 63 / 64 / 66 / 130 bytes next to short ones (length-indexed tables and masks)
+    A([V('ContentType', ser=['ctype'], ts='content-type'), V('Vendor', ts='x-very-long-vendor-specific-header-name-that-nobody-would-ever-use'), V('L63', ser=['a' * 63]),
+       V('L64', ser=['b' * 64], aci=True), V('L130', ser=['c' * 130, 'c']), V('Accept')])
+    # 26 case-sensitive spellings with a common prefix and a custom error (the error function must see the whole input, not a remainder)
+    A([V('Green'), V('Grey'), V('Gold', ser=['Gold', 'Gilt'])], parse_err_ty='PErr', parse_err_fn='perr')
     # 24 eight case-sensitive spellings and a custom error
     A([V(x) for x in ('Alpha', 'Bravo', 'Charlie', 'Delta', 'Echo', 'Foxtrot', 'Golf', 'Hotel', 'India')], parse_err_ty='PErr', parse_err_fn='perr')
     if tier == 'quick':
@@ -725,6 +730,8 @@ def corpus_props(tier, seed):
     A([P(V('Level'), [('level', 'top')], [('level', 3)], [('level', True)]), P(V('IdStr'), [('id', '7'), ('on', 'true')]), P(V('IdInt'), [('id', 7), ('on', True)]),
        P(V('IdStr2', 'tuple', ['u8']), [('id', '7'), ('on', 'true')])]).attr_layout = 'split'
     A([P(V('DarkRed'), [('Teacher', 'x'), ('isMandatory', True), ('snake_key', 3)]), P(V('LightBlue'), [('Teacher', 4)])], serialize_all='snake_case')
+    # string properties only, with values that would parse as integers / booleans (no integer or boolean property anywhere in the enum), and a key of 70 bytes
+    A([P(V('Code'), [('number', '201'), ('flag', 'true')]), P(V('Other', 'tuple', ['u8']), [('number', '-5')], [('flag', 'false'), ('k' * 70, 'long-key')])])
     if tier == 'quick':
         return out
     keys = ['a', 'b', 'c', 'color', 'Type', 'x1']
@@ -774,6 +781,9 @@ def corpus_agree(tier, seed):
     A([V('Dog'), V('Cat', ser=['kitty'], disabled=True), V('Fish', ts='fishy'), V('Bird', aci=True, disabled=True)], serialize_all='lowercase').attr_layout = 'split'
     A([V('Dog', ser=['d']), V('Cat', ser=['kitty'], disabled=True), V('Fish')], derives=('EnumCount', 'EnumIter', 'VariantNames')).attr_layout = 'split_rev'
     A([V('Yes', ser=['oui']), V('Unset', ser=['']), V('No', ts='')])
+    # variant counts at the boundary of a narrow integer type (an iterator cursor must also hold the one-past-the-end value)
+    for n in (255, 256):
+        A([V('V%d' % i) for i in range(n)]).tags += ['N=%d' % n, 'boundary']
     if tier == 'quick':
         return out
     styles = [None, 'kebab-case', 'camelCase', 'UPPERCASE', 'Train-Case']
